@@ -47,8 +47,8 @@ Rel == <<"relative", N>>
 TempAtoms == {"psat", "rhoLmass", "rhoLmol", "rhoGmass", "rhoGmol"}
 TempDependent(v) == \E a \in TempAtoms : Phys(v)[a] # 0
 
-\* role: "S" sample / first isotherm, "R" reference / further isotherm, "W" the sample after Whittaker's
-\* in-place convert_pressure(unit_to='Pa')
+\* role: "S" sample / first isotherm, "R" reference / further isotherm, "W" Whittaker's working copy of the
+\* sample after convert_pressure(unit_to='Pa')
 Rd(role, acc, g, slot, means) == [role |-> role, acc |-> acc, g |-> g, slot |-> slot, means |-> means]
 \* utilities/pygaps_utilities.py get_iso_loading_and_pressure_ordered(isotherm, branch, {loading...}, {"pressure_mode": "relative"})
 Ordered(role, lb, lu, sl, sp) ==
@@ -86,7 +86,7 @@ Plan(an, sS, sR) ==
           IN << Rd("S", "p.loading", g, "range", Zero), Rd("R", "p.loading", g, "range", Zero),
                 Rd("S", "p.pressure_at", gp, "pressures", grid), Rd("R", "p.pressure_at", gp, "pressures", grid) >>
      [] an = "enthalpy_sorption_whittaker" ->
-          \* isotherm.convert_pressure(unit_to='Pa'); model fitted natively; isotherm.pressure_at(n, pressure_unit='Pa')
+          \* copy.convert_pressure(unit_to='Pa'); model fitted to the copy natively; model_isotherm.pressure_at(n, pressure_unit='Pa')
           << Rd("W", "m.pressure", G0, "model_pressure", Zero),
              Rd("W", "m.pressure_at", [G0 EXCEPT !.pu = "Pa"], "pressure_at", ColL(RoleState("W", sS, sR))) >>
      [] an \in {"initial_enthalpy_comp", "initial_enthalpy_point"} ->
